@@ -82,7 +82,7 @@ class RandomStub:
             if isinstance(u, Fraction) and env.numeric != 'fraction':
                 u = _real_float(u)
             if not (0 < u < 1):
-                u = type(u)(Fraction(1, 2)) if isinstance(u, Fraction) else 0.5
+                u = Fraction(1, 2) if isinstance(u, Fraction) else 0.5
         self.calls.append(('random', name, u))
         return u
 
@@ -587,8 +587,10 @@ class UFModel:
     """
 
     def __init__(self, env, features, labels=('output',), reads=None, name='M', flavor='py', faults=None,
-                 varying_labels=False, memoise=False):
+                 varying_labels=False, memoise=False, optional=(), positional=False):
         self.env = env
+        self.optional = set(optional)   # features read with x.get(f, 0): an observation may lack them
+        self.positional = positional    # reads the VALUES of the input dict by position (like a wrapper without feature names)
         self.memoise = memoise          # a deterministic model may return the SAME dict object for the same input (cache)
         self._memo = {}
         self.returned = []              # (dict object handed out, snapshot of its content)
@@ -605,10 +607,21 @@ class UFModel:
 
     def _key(self, x):
         out = []
-        for f in self.reads:
-            v = x[f]
+        for f, v in self._args_named(x):
             out.append(('t', v.t.get_id()) if isinstance(v, Sym) else ('v', getattr(v, '_tag', None) or repr(v)))
         return tuple(out)
+
+    def _args_named(self, x):
+        if self.positional:
+            return [(i, v) for i, v in enumerate(x.values())]
+        return [(f, (x.get(f, 0) if f in self.optional else x[f])) for f in self.reads]
+
+    def _args(self, x):
+        vals = [v for _f, v in self._args_named(x)]
+        if self.positional:
+            if len(vals) != len(self.reads):
+                raise HarnessError(f"positional model expects {len(self.reads)} values, got {len(vals)}")
+        return vals
 
     def labels_for(self, x):
         if not self.varying_labels or len(self.labels) < 2:
@@ -626,7 +639,7 @@ class UFModel:
         if self.faults is not None:
             self.faults.tick('model')
         self.calls.append(dict(x))
-        args = [x[f] for f in self.reads]
+        args = self._args(x)
         if self.memoise:
             k = self._key(x)
             if k in self._memo:
@@ -650,7 +663,7 @@ class UFModel:
 
     def value(self, x, label='output'):
         """oracle access: M_label(x) without logging"""
-        return self._fs[label](*[x[f] for f in self.reads], flavor=self.flavor)
+        return self._fs[label](*self._args(x), flavor=self.flavor)
 
     def out(self, x):
         return {lab: self.value(x, lab) for lab in self.labels_for(x)}
